@@ -21,13 +21,17 @@ void vc_ev_cb(JanetFiber *fiber, JanetAsyncEvent event) {
 }
 
 #define FR(F, i) ((JanetStackFrame *)((F)->data + (i) - JANET_FRAME_SIZE))
-#define MAXCAP (1 << 20)
+/* bound: the stack has exactly VC_NSLOTS slots (byte-level reads of frame headers at symbolic offsets of a symbolic-size object exhaust memory) */
+#ifndef VC_NSLOTS
+#define VC_NSLOTS 24
+#endif
+#define MAXCAP VC_NSLOTS
 /* representation invariant of a fiber stack (fiber.c: janet_fiber_reset, janet_fiber_funcframe, janet_fiber_cframe, popframe; same as unit fiber.env_valid):
  * 0 <= stackstart <= stacktop <= capacity; the current frame header lies below stackstart; the frame chain is well founded:
  * every frame index i > 0 has FRAME_SIZE <= i, its header's prevframe is in [0, i - FRAME_SIZE].  (i0, i1, i2) name the chain. */
 #define WF_FRAME(F, i, prev) ((i) >= 0 && ((i) > 0 ==> ((i) >= JANET_FRAME_SIZE && (i) <= (F)->capacity && (prev) == FR(F, i)->prevframe && (prev) >= 0 && (prev) <= (i) - JANET_FRAME_SIZE)) && ((i) == 0 ==> (prev) == 0))
-#define WF_FIBER(F, i0, i1, i2) ((F)->capacity >= 0 && (F)->capacity <= MAXCAP && (F)->stackstart >= 0 && (F)->stackstart <= (F)->stacktop && (F)->stacktop <= (F)->capacity && \
-   (i0) == (F)->frame && ((i0) > 0 ==> (i0) + JANET_FRAME_SIZE <= (F)->stackstart) && WF_FRAME(F, i0, i1) && WF_FRAME(F, i1, i2) && \
+#define WF_FIBER(F, i0, i1, i2) ((F)->capacity == MAXCAP && (F)->stackstart >= 0 && (F)->stackstart <= (F)->stacktop && (F)->stacktop <= (F)->capacity && \
+   (i0) == (F)->frame && ((i0) > 0 ==> (i0) <= (F)->stackstart - JANET_FRAME_SIZE) && WF_FRAME(F, i0, i1) && WF_FRAME(F, i1, i2) && \
    /* bound: at most 3 frames */ (i2) >= 0 && ((i2) > 0 ==> ((i2) >= JANET_FRAME_SIZE && (i2) <= (F)->capacity && FR(F, i2)->prevframe == 0)) && \
    ((F)->ev_callback == (JanetEVCallback) 0 || (F)->ev_callback == vc_ev_cb))
 /* the selected frame index and the end of its slot range */
@@ -57,12 +61,10 @@ void vc_ev_cb(JanetFiber *fiber, JanetAsyncEvent event) {
 
 static void janet_mark_fiber_spec(JanetFiber *fiber)
 __CPROVER_requires(__CPROVER_is_fresh(fiber, sizeof(JanetFiber)))
-__CPROVER_requires(fiber->capacity >= 0 && fiber->capacity <= MAXCAP)
-__CPROVER_requires(__CPROVER_is_fresh(fiber->data, sizeof(Janet) * (size_t) fiber->capacity))
+__CPROVER_requires(__CPROVER_is_fresh(fiber->data, sizeof(Janet) * MAXCAP))
 __CPROVER_requires(WF_FIBER(fiber, g_a0, g_a1, g_a2))
 __CPROVER_requires(C1(fiber) == (JanetFiber *) 0 || __CPROVER_is_fresh(C1(fiber), sizeof(JanetFiber)))
-__CPROVER_requires(HAS1(fiber) ==> (C1(fiber)->capacity >= 0 && C1(fiber)->capacity <= MAXCAP))
-__CPROVER_requires(C1(fiber) == (JanetFiber *) 0 || __CPROVER_is_fresh(C1(fiber)->data, sizeof(Janet) * (size_t) C1(fiber)->capacity))
+__CPROVER_requires(C1(fiber) == (JanetFiber *) 0 || __CPROVER_is_fresh(C1(fiber)->data, sizeof(Janet) * MAXCAP))
 __CPROVER_requires(HAS1(fiber) ==> WF_FIBER(C1(fiber), g_b0, g_b1, g_b2))
 /* bound: child chain of at most 2 fibers */
 __CPROVER_requires(HAS1(fiber) ==> C1(fiber)->child == (JanetFiber *) 0)
